@@ -82,7 +82,7 @@ func (c *Ctx) bufReads(rule string, fn *ssa.Function, pi int, regionIn region, d
 				}
 				name := origin(callee).String()
 				for ai, a := range cc.Args {
-					if reg[a] != rPrefix && !(reg[a] == rBuffer && regionIn == rPrefix) {
+					if reg[a] != rPrefix && reg[a] != rBuffer {
 						continue
 					}
 					switch {
@@ -91,8 +91,10 @@ func (c *Ctx) bufReads(rule string, fn *ssa.Function, pi int, regionIn region, d
 							c.add("violated", rule, fn, x.Pos(), "caller's bytes passed as data operand of "+name)
 						}
 					case inRepo(callee):
-						if reg[a] == rPrefix {
-							c.bufReads(rule, origin(callee), ai, rPrefix, depth+1)
+						// the caller's bytes, or a bytes.Buffer that wraps them, in a function of the module: what it
+						// reads of them is read here
+						if g := origin(callee); ai < len(g.Params) {
+							c.bufReads(rule, g, ai, reg[a], depth+1)
 						}
 					case name == "(*bytes.Buffer).Grow":
 					case name == "(*bytes.Buffer).Len" || name == "(*bytes.Buffer).Cap":
